@@ -67,7 +67,19 @@ def gen_config(rng, nlayers=None, ndip=6, nmeg=18, ngeneric=12):
         d = unit(rng); p = S.scal(R * rng.uniform(1.05, 1.5), d)
         o = d if k % 3 == 0 else perp(rng, d) if k % 3 == 1 else unit(rng)
         meg.append(dict(pos=list(p), ori=list(o)))
+    denormalise_orientations(meg)
     return dict(radii=radii, sigmas=sigmas, centre=list(centre), dipoles=dips, generic=generic, meg=meg, nvertex_elec=42)
+
+def denormalise_orientations(meg):
+    """The library documents the orientation as a vector and normalises it (assembleSensors.cpp: .../direction.norm() in
+    Head2MEGMat, SurfSource2MEGMat, DipSource2MEGMat), so the length must not matter.  Half of the sensors get a non-unit
+    orientation: k%4==1 -> unit x factor in [0.2,5]; k%4==3 -> factor |position| (for a radial sensor: orientation = position).
+    A private generator is used so that the main random stream (and with it calib/C01.json) is unchanged."""
+    import random
+    for k, m in enumerate(meg):
+        g = random.Random(1000003 * k + int(abs(m["pos"][0]) * 1e9) % 999983)
+        f = math.exp(g.uniform(math.log(0.2), math.log(5.0))) if k % 4 == 1 else S.norm(m["pos"]) if k % 4 == 3 else 1.0
+        m["ori"] = list(S.scal(f, m["ori"]))
 
 def electrodes(cfg, level):
     """positions relative to the centre: a fixed subset of outer-mesh vertices (the 42 level-1 vertices are vertices of every level) + generic points"""
@@ -156,24 +168,49 @@ def metrics(cfg, level, impl_f, model_f, with_eeg=True):
 class Runner:
     def __init__(self, ck, hb):
         self.ck = ck; self.hb = hb; self.n = 0; self.evals = 0
-    def run(self, jobs, timeout=3000):
-        """jobs = [(cfg, level, sigmas_override or None, with_eeg)] -> [(impl floats or None, model floats, status)]"""
+    def run(self, jobs, timeout=3000, isolate=False):
+        """jobs = [(cfg, level, sigmas_override or None, with_eeg)] -> [(impl floats or None, model floats, status)]
+        All jobs run in ONE harness process, in order (so that anything that depends on the history of the process - heap
+        reuse, shared buffers - can show), unless isolate: then every job gets a fresh process.
+        self.last_masks[i] = bit mask of Gain* operands the library modified (0 expected)."""
         wd = self.ck.workdir; icases = []; mcases = []
         for cfg, level, sig, with_eeg in jobs:
             self.n += 1
             write_geometry(cfg, level, wd, self.n, sig)
             icases.append(impl_case(cfg, level, self.n, with_eeg)); mcases.append(model_case(cfg, level, 1, with_eeg))
         mo = core.run_model(mcases)
-        rc, io, err = core.run_harness(self.hb, icases, wd, timeout=timeout, env={"OMP_NUM_THREADS": os.environ.get("C01_THREADS", "2")})
-        res = []
+        env = {"OMP_NUM_THREADS": os.environ.get("C01_THREADS", "2")}
+        if isolate:
+            io = []
+            for ic in icases:
+                rc, o, err = core.run_harness(self.hb, [ic], wd, timeout=timeout, env=env, tag="alone")
+                io.append(o[0] if o else "CRASH none")
+        else:
+            rc, io, err = core.run_harness(self.hb, icases, wd, timeout=timeout, env=env)
+            io = list(io) + ["CRASH missing"] * (len(icases) - len(io))
+        res = []; self.last_masks = []
         for (cfg, level, sig, with_eeg), m, i in zip(jobs, mo, io):
-            mz, mf = core.fparse(m); iz, if_ = core.fparse(i)
+            mz, mf = core.fparse(m)
+            try: iz, if_ = core.fparse(i)
+            except ValueError: iz, if_ = None, None
             self.evals += 1
-            ok = iz is not None and iz and iz[0] == 0 and mz and mz[0] == 0 and len(if_) == len(mf)
+            ok = iz is not None and len(iz) >= 6 and iz[0] == 0 and mz and mz[0] == 0 and len(if_) == len(mf)
             res.append((if_ if ok else None, mf, (i[:80] if not ok else "ok")))
+            self.last_masks.append(iz[5] if ok else 0)
         for f in os.listdir(wd):
             if f.startswith(("m", "s")) and f.endswith((".geom", ".cond", ".tri")): os.remove(os.path.join(wd, f))
         return res
+
+def finite(v): return v is not None and all(x == x and abs(x) != float("inf") for x in v)
+
+def rel_l2(a, b):
+    """relative l2 difference of two gain vectors; inf when one of them is not finite"""
+    if not finite(a) or not finite(b) or len(a) != len(b): return float("inf")
+    n = max(l2(a), l2(b))
+    return 0.0 if n == 0 else l2([x - y for x, y in zip(a, b)]) / n
+
+MASKBITS = {1: "HeadMatInv", 2: "SourceMat (DipSourceMat)", 4: "Head2EEGMat", 8: "Head2MEGMat", 16: "Source2MEGMat (DipSource2MEGMat)"}
+def mask_names(m): return [n for b, n in MASKBITS.items() if m & b]
 
 def closed_form_pieces(ck, runner, cfgs, rng):
     """The parts of the pipeline that are closed forms, not discretisations, must equal the oracle's closed forms at the
@@ -312,8 +349,10 @@ def describe(cfg, level):
     return "%d layer(s), %d vertices/surface, radii %s, sigmas %s, centre %s" % (
         len(cfg["radii"]), NVERT[level], ["%.4g" % r for r in cfg["radii"]], ["%.4g" % s for s in cfg["sigmas"]], ["%.3g" % c for c in cfg["centre"]])
 
-def report(ck, cal, runner, cfg, level, tag):
-    """a configuration exceeded its bound: shrink it and record the violation with a replay"""
+def report(ck, cal, runner, cfg, level, tag, bad0=None, imp0=None, mod0=None, history=None):
+    """a configuration exceeded its bound (bad0, measured inside the batch): shrink it and record the violation with a replay.
+    When the failure does not reproduce in a fresh process it depends on the history of the process: then the batch prefix
+    (history = the jobs that ran before it in the same process) is the replay."""
     def run1(c, lv):
         (imp, mod, st), = runner.run([(c, lv, None, True)])
         if imp is None: return [(0, "pipeline", float("inf"), 0.0)]
@@ -321,20 +360,60 @@ def report(ck, cal, runner, cfg, level, tag):
     runner.reports = getattr(runner, "reports", 0) + 1
     if runner.reports > 12: return                       # enough evidence; keep the run time bounded
     small, bad = shrink(run1, cfg, level, budget=24 if runner.reports <= 2 else 1)   # full search for the first two only
-    if not bad: small, bad = cfg, run1(cfg, level)
-    (imp, mod, st), = runner.run([(small, level, None, True)])
+    if bad:
+        (imp, mod, st), = runner.run([(small, level, None, True)])
+        rp = dict(kind="sphere-config", config=small, level=level)
+        where = ""
+    else:
+        # not reproducible alone
+        small, bad, imp, mod = cfg, (bad0 or [(0, "unknown", float("nan"), 0.0)]), imp0, mod0
+        hist = [list(h) for h in (history or [])][-3:]
+        rp = dict(kind="sphere-batch", jobs=hist + [[cfg, level, None, True]], index=len(hist), level=level, config=cfg)
+        where = " ONLY when it is computed after other models in the same process (a fresh process gives a result within the bound): the result depends on the history of the process;"
     j, mname, v, b = bad[0]
-    d = small["dipoles"][j]
-    sig = "%s above bound: %d layers, %d vertices, %s dipole" % (mname, len(small["radii"]), NVERT[level], d["kind"])
-    ck.violation(sig, "%s: %s = %.4g exceeds the calibrated bound %.4g for dipole %d (%s, eccentricity %.3f of the inner radius, position %s, moment %s); configuration: %s"
-                 % (tag, mname, v, b, j, d["kind"], d["ecc"], ["%.4g" % x for x in d["pos"]], ["%.4g" % x for x in d["mom"]], describe(small, level)),
-                 dict(kind="sphere-config", config=small, level=level, exceed=[list(x) for x in bad[:10]],
-                      expected_analytic=mod, obtained_pipeline=imp, original_config=cfg,
-                      files=geometry_files(small, level, ck.workdir) if level <= 2 else "geometry regenerated by lib/models.nested(radii, sigmas, level, centre), written as m<id>.geom/.cond/.tri (17 digits)",
-                      dipoles=[shift(x["pos"], small["centre"]) + x["mom"] for x in small["dipoles"]],
-                      replay_cmd="./check C01 --replay <this file>"))
+    d = small["dipoles"][min(j, len(small["dipoles"]) - 1)]
+    sig = "%s above bound: %d layers, %d vertices, %s dipole%s" % (mname, len(small["radii"]), NVERT[level], d["kind"], " (history dependent)" if where else "")
+    rp.update(exceed=[list(x) for x in bad[:10]], expected_analytic=mod, obtained_pipeline=imp, original_config=cfg,
+              files=geometry_files(small, level, ck.workdir) if level <= 2 else "geometry regenerated by lib/models.nested(radii, sigmas, level, centre), written as m<id>.geom/.cond/.tri (17 digits)",
+              dipoles=[shift(x["pos"], small["centre"]) + x["mom"] for x in small["dipoles"]],
+              replay_cmd="./check C01 --replay <this file>")
+    ck.violation(sig, "%s: %s = %.4g exceeds the calibrated bound %.4g for dipole %d (%s, eccentricity %.3f of the inner radius, position %s, moment %s)%s configuration: %s"
+                 % (tag, mname, v, b, j, d["kind"], d["ecc"], ["%.4g" % x for x in d["pos"]], ["%.4g" % x for x in d["mom"]], where or ";", describe(small, level)), rp)
+
+def run_batch_replay(ck, cal, runner, rp):
+    """replay of a history-dependent failure: the stored jobs in one process, the indexed one again alone"""
+    jobs = [tuple(j) for j in rp["jobs"]]; k = rp["index"]
+    res = runner.run(jobs); masks = list(runner.last_masks)
+    alone = runner.run([jobs[k]], isolate=True)
+    imp, mod, st = res[k]; imp1 = alone[0][0]
+    cfg, level = jobs[k][0], jobs[k][1]
+    msgs = []
+    if imp is None: msgs.append("pipeline failure in the batch (%s)" % st)
+    else:
+        if any(masks): msgs.append("Gain* operands modified: %s" % mask_names(max(masks)))
+        e = rel_l2(imp, imp1)
+        if not (e <= 1e-9): msgs.append("result in the batch differs from the result of a fresh process by %.3g (relative l2)" % e)
+        if finite(imp) and jobs[k][3]:
+            bad = exceed(cal, cfg, level, metrics(cfg, level, imp, mod))
+            if bad: msgs.append("%s = %.4g > bound %.4g (dipole %d)" % (bad[0][1], bad[0][2], bad[0][3], bad[0][0]))
+        elif not finite(imp): msgs.append("non-finite gain")
+    ck.log("batch replay:", msgs or "passes")
+    if msgs: ck.violation(rp.get("signature", "replay"), "replayed batch still fails: %s; %s" % ("; ".join(msgs), describe(cfg, level)), rp)
 
 def main(replay=None, calibrate=False):
+    """never dies with a traceback: an internal error of the check is itself reported (without failing input)"""
+    try:
+        return main_(replay, calibrate)
+    except Exception as e:                                 # noqa - the protocol wants a VIOLATION line, not a traceback
+        import traceback
+        tb = traceback.format_exc()
+        ck = core.Check(PROP, "other"); ck.cov["explanation"] = EXPLANATION
+        ck.cov.update(evaluations=0, distinct_nontrivial=0, rule="the check aborted", samples=[tb[-400:]])
+        ck.violation("check internal error: %s" % type(e).__name__, "the check itself failed (%s: %s); nothing can be concluded from this run:\n%s" % (type(e).__name__, e, tb[-1500:]),
+                     dict(kind="internal", traceback=tb), found_input=False)
+        return ck.finish()
+
+def main_(replay=None, calibrate=False):
     ck = core.Check(PROP, "other")
     ck.cov["explanation"] = EXPLANATION
     quick = ck.tier != "thorough"
@@ -375,6 +454,55 @@ def main(replay=None, calibrate=False):
                 if bad:
                     j, mname, v, b = bad[0]
                     ck.violation(rp.get("signature", "replay"), "replayed configuration still fails: %s = %.4g > %.4g (dipole %d); %s" % (mname, v, b, j, describe(cfg, level)), rp)
+        if rp.get("kind") == "sphere-batch":
+            run_batch_replay(ck, cal, runner, rp)
+        if rp.get("kind") == "relation":
+            c = rp["config"]; rel = rp["relation"]; msgs = []
+            nd = len(c["dipoles"]); off = len(electrodes(c, 1)) * nd
+            if rel == "sigma-scale":
+                k = rp["k"]; (a, _, sa), (b, _, sb) = runner.run([(c, 1, None, True), (c, 1, [k * x for x in c["sigmas"]], True)])
+                if a is None or b is None: msgs.append("pipeline failure %s %s" % (sa, sb))
+                else:
+                    ee = rel_l2([x for j in range(nd) for x in demean(col(a, 0, off // nd, nd, j))], [k * x for j in range(nd) for x in demean(col(b, 0, off // nd, nd, j))])
+                    em = rel_l2(a[off:], b[off:])
+                    if not (ee <= 1e-9): msgs.append("EEG x k differs by %.3g" % ee)
+                    if not (em <= 1e-9): msgs.append("MEG differs by %.3g" % em)
+            elif rel == "orientation-length":
+                c2 = copy.deepcopy(c)
+                for kk, m in enumerate(c2["meg"]): m["ori"] = list(S.scal(3.7 if kk % 2 == 0 else 1.0 / S.norm(m["ori"]), m["ori"]))
+                (a, _, sa), (b, _, sb) = runner.run([(c, 1, None, False), (c2, 1, None, False)])
+                e = rel_l2(a, b) if a is not None and b is not None else float("inf")
+                if not (e <= 1e-9): msgs.append("MEG gain changes by %.3g when the orientation vectors are rescaled" % e)
+            elif rel == "sigma-independent":
+                (a, _, sa), (b, _, sb) = runner.run([(c, 1, None, False), (c, 1, rp["sigmas2"], False)])
+                e = rel_l2(a, b) if a is not None and b is not None else float("inf")
+                if not (e <= cal["meg_sigma"]): msgs.append("MEG gain changes by %.3g (level %.3g) between the two conductivity sets" % (e, cal["meg_sigma"]))
+            elif rel == "refine":
+                la, lb = rp["refine"][0], rp["refine"][1]; name = rp["metric"]
+                (a, ma, sa), (b, mb, sb) = runner.run([(c, la, None, True), (c, lb, None, True)])
+                if a is None or b is None: msgs.append("pipeline failure %s %s" % (sa, sb))
+                else:
+                    def mm(mets): v = [r[name] for r in mets if name in r]; return sum(v) / len(v) if v else 0.0
+                    x, y = mm(metrics(c, la, a, ma)), mm(metrics(c, lb, b, mb))
+                    if not (y <= (cal or {}).get("refine_slack", 1.0) * x) and y > FLOORS[name]: msgs.append("mean %s %.4g at %d vertices, %.4g at %d vertices" % (name, x, NVERT[la], y, NVERT[lb]))
+            ck.log("relation replay (%s):" % rel, msgs or "passes")
+            if msgs: ck.violation(rp.get("signature", "replay"), "replayed relation '%s' still fails: %s; %s" % (rel, "; ".join(msgs), describe(c, rp.get("level", 1))), rp)
+        if rp.get("kind") == "sweep":
+            c = rp["config"]; sets = rp["sigma_sets"]; ids = []
+            for sg in sets:
+                runner.n += 1; ids.append(runner.n); write_geometry(c, 1, ck.workdir, runner.n, sg)
+            toks = rp["case"].split(); toks[2:2 + len(ids)] = [str(i) for i in ids]
+            rc_, swo, _ = core.run_harness(hb, [" ".join(toks)], ck.workdir, env={"OMP_NUM_THREADS": "2"}, tag="sweep")
+            try: iz, fo = core.fparse(swo[0])
+            except (ValueError, IndexError): iz, fo = None, None
+            fresh = runner.run([(c, 1, sg, True) for sg in sets], isolate=True)
+            if iz is None or iz[0] != 0: ck.violation(rp.get("signature", "replay"), "replayed sweep fails to run: %s" % (swo[:1],), rp)
+            else:
+                blk = len(fo) // len(sets)
+                errs = [rel_l2(fo[m * blk:(m + 1) * blk], fresh[m][0]) for m in range(len(sets))]
+                ck.log("sweep replay: relative differences to fresh operators", errs, "mask", iz[5])
+                if iz[5] or not all(e <= 1e-9 for e in errs):
+                    ck.violation(rp.get("signature", "replay"), "replayed conductivity sweep still differs from fresh operators: %s (operands modified: %s)" % (["%.3g" % e for e in errs], mask_names(iz[5]) or "none"), rp)
         if rp.get("kind") == "closed-form":
             cfg = rp["config"]; runner.n += 1
             write_geometry(cfg, 1, ck.workdir, runner.n)
@@ -399,11 +527,46 @@ def main(replay=None, calibrate=False):
     for k in range(n1):
         forced = [1, 2, 3, 4][k] if k < 4 else None          # every layer count in every run
         cfgs.append(gen_config(rng, forced))
-    jobs = [(c, 1, None, True) for c in cfgs] + [(c, 2, None, True) for c in cfgs[:n2]]
-    res = runner.run(jobs)
+    # 162-vertex tier: the first n2 configurations plus (quick tier) the four hardest of the rest - strongest conductivity contrast,
+    # thin layers - because the 42-vertex bounds are nearly vacuous exactly there and the 162-vertex ones are not
+    def hardness(c):
+        sg, rd = c["sigmas"], c["radii"]
+        return (max([1.0] + [max(sg[i + 1] / sg[i], sg[i] / sg[i + 1]) for i in range(len(sg) - 1)]) * (3.0 if max([0.0] + [rd[i] / rd[i + 1] for i in range(len(rd) - 1)]) > 0.9 else 1.0))
+    l2cfgs = cfgs[:n2] + (sorted(cfgs[n2:], key=hardness, reverse=True)[:(10 if calibrate else 4)] if quick or calibrate else [])
+    jobs = [(c, 1, None, True) for c in cfgs] + [(c, 2, None, True) for c in l2cfgs]
+    res = runner.run(jobs); masks = list(runner.last_masks)
     obs = []; samples = []; nontriv = 0; worst = {}; frac = {}
     per = {}
-    for (cfg, level, _, _), (imp, mod, st) in zip(jobs, res):
+    # every Gain* operand must come back bitwise unchanged (they are inputs: a sweep reuses them)
+    for q_, m_ in enumerate(masks):
+        if m_:
+            c_, lv_ = jobs[q_][0], jobs[q_][1]
+            ck.violation("Gain constructor modifies its operand: %s" % ", ".join(mask_names(m_)),
+                         "GainEEG/GainMEG changed the matrix handed in as %s (bitwise snapshot before/after the constructor); a second gain computed from the same operator object (conductivity sweep) is then wrong; %s" % (", ".join(mask_names(m_)), describe(c_, lv_)),
+                         dict(kind="sphere-batch", jobs=[list(jobs[q_])], index=0, level=lv_, config=c_, mask=m_)); break
+    # the same configuration alone in a fresh process must give the same numbers (1e-9: thread scheduling only)
+    niso = min(len(jobs), len(cfgs) + 3) if quick else min(len(jobs), 80)      # all 42-vertex jobs and three 162-vertex ones
+    if not calibrate:
+        iso = runner.run(jobs[:niso], isolate=True); hist_err = 0.0; nhist = 0
+        for q_ in range(niso):
+            a_, b_ = res[q_][0], iso[q_][0]
+            if a_ is None and b_ is None: continue
+            e_ = rel_l2(a_, b_) if (a_ is not None and b_ is not None) else float("inf")
+            if e_ == e_ and e_ != float("inf"): hist_err = max(hist_err, e_)
+            if not (e_ <= 1e-9) and nhist < 3:
+                nhist += 1
+                c_, lv_ = jobs[q_][0], jobs[q_][1]
+                # smallest history: the job right before it, else the three before it
+                hist = [list(j) for j in jobs[max(0, q_ - 3):q_]]
+                for cand in ([list(jobs[q_ - 1])] if q_ > 0 else []), hist:
+                    r2 = runner.run([tuple(j) for j in cand] + [jobs[q_]])
+                    if not (rel_l2(r2[-1][0], b_) <= 1e-9): hist = cand; break
+                ck.violation("result depends on the history of the process: %d layers, %d vertices" % (len(c_["radii"]), NVERT[lv_]),
+                             "the gains of this configuration computed after %d other model(s) in the same process differ from the gains computed in a fresh process by %.3g (relative l2; %s); %s"
+                             % (len(hist), e_, "non-finite values" if not finite(a_) else "finite values", describe(c_, lv_)),
+                             dict(kind="sphere-batch", jobs=hist + [list(jobs[q_])], index=len(hist), level=lv_, config=c_, in_batch=a_, fresh_process=b_))
+        ck.cov["batch_vs_fresh_process_max_rel"] = hist_err; ck.cov["batch_vs_fresh_process_compared"] = niso
+    for q_, ((cfg, level, _, _), (imp, mod, st)) in enumerate(zip(jobs, res)):
         dist["L%d/%d layers" % (level, len(cfg["radii"]))] = dist.get("L%d/%d layers" % (level, len(cfg["radii"])), 0) + 1
         if imp is None:
             ck.violation("pipeline failure: %d layers, %d vertices" % (len(cfg["radii"]), NVERT[level]), "the pipeline failed (%s) on %s" % (st, describe(cfg, level)),
@@ -422,7 +585,7 @@ def main(replay=None, calibrate=False):
                     fr = v / bound(cal, features(cfg, d, level), mname)
                     if fr > frac.get(mname, (0.0,))[0]: frac[mname] = (round(fr, 4), key(features(cfg, d, level)))
             bad = exceed(cal, cfg, level, mets)
-            if bad: report(ck, cal, runner, cfg, level, "forward solution vs analytic sphere")
+            if bad: report(ck, cal, runner, cfg, level, "forward solution vs analytic sphere", bad, imp, mod, jobs[max(0, q_ - 3):q_])
 
     # ---- error must decrease under refinement (42 -> 162 [-> 642]); compared on the configuration as a whole
     refine = []
@@ -430,16 +593,16 @@ def main(replay=None, calibrate=False):
         v = [r[name] for r in mets if name in r]; return sum(v) / len(v) if v else None
     levels3 = []
     if n3 and not calibrate:
-        c3 = [c for c in cfgs[:n2] if len(c["radii"]) == 4][:1] + [c for c in cfgs[:n2] if len(c["radii"]) != 4][:n3 - 1]
+        c3 = [c for c in l2cfgs if len(c["radii"]) == 4][:1] + [c for c in l2cfgs if len(c["radii"]) != 4][:n3 - 1]
         r3 = runner.run([(c, 3, None, True) for c in c3], timeout=7200)
         for c, (imp, mod, st) in zip(c3, r3):
             if imp is None:
                 ck.violation("pipeline failure: %d layers, 642 vertices" % len(c["radii"]), "the pipeline failed (%s) on %s" % (st, describe(c, 3)), dict(kind="sphere-config", config=c, level=3)); continue
             per[(id(c), 3)] = metrics(c, 3, imp, mod); levels3.append(c)
             bad = exceed(cal, c, 3, per[(id(c), 3)])
-            if bad: report(ck, cal, runner, c, 3, "forward solution vs analytic sphere")
+            if bad: report(ck, cal, runner, c, 3, "forward solution vs analytic sphere", bad, imp, mod, [])
     slack = (cal or {}).get("refine_slack", 1.0)
-    for c in cfgs[:n2]:
+    for c in l2cfgs:
         seq = [(lv, per.get((id(c), lv))) for lv in (1, 2, 3) if per.get((id(c), lv))]
         for (la, ma), (lb, mb) in zip(seq, seq[1:]):
             for name in ("eeg_rdm", "meg_rdm"):
@@ -449,7 +612,7 @@ def main(replay=None, calibrate=False):
                 if not calibrate and not (b <= slack * a) and b > FLOORS[name]:
                     ck.violation("no decrease under refinement: %s %d -> %d vertices, %d layers" % (name, NVERT[la], NVERT[lb], len(c["radii"])),
                                  "mean %s over the dipoles does not decrease under refinement: %.4g at %d vertices, %.4g at %d vertices; %s" % (name, a, NVERT[la], b, NVERT[lb], describe(c, lb)),
-                                 dict(kind="sphere-config", config=c, level=lb, refine=[la, lb, a, b]))
+                                 dict(kind="relation", relation="refine", metric=name, config=c, level=lb, refine=[la, lb, a, b]))
 
     # ---- MEG does not depend on the conductivities
     #  (a) sigma -> k sigma: exact invariant of the discrete equations (potentials scale by 1/k, currents do not): 1e-9
@@ -460,36 +623,85 @@ def main(replay=None, calibrate=False):
     for c in cfgs[4:4 + nsig] if len(cfgs) >= 4 + nsig else cfgs[:nsig]:
         k = rng.choice([0.25, 3.0, 10.0])
         s2 = gen_sigmas(rng, len(c["radii"]))
-        sjobs += [(c, 1, None, True), (c, 1, [k * s for s in c["sigmas"]], True), (c, 1, s2, False)]; spec.append((c, k, s2))
+        c2 = copy.deepcopy(c)                              # same sensors, orientation vectors of another length
+        for kk, m in enumerate(c2["meg"]): m["ori"] = list(S.scal(3.7 if kk % 2 == 0 else 1.0 / S.norm(m["ori"]), m["ori"]))
+        sjobs += [(c, 1, None, True), (c, 1, [k * s for s in c["sigmas"]], True), (c, 1, s2, True), (c2, 1, None, False)]; spec.append((c, k, s2))
     sres = runner.run(sjobs)
-    msig = 0.0; mscale = 0.0; escale = 0.0
+    if any(runner.last_masks) and not calibrate:
+        q_ = [i for i, m in enumerate(runner.last_masks) if m][0]
+        ck.violation("Gain constructor modifies its operand: %s" % ", ".join(mask_names(runner.last_masks[q_])),
+                     "GainEEG/GainMEG changed the matrix handed in as %s; %s" % (", ".join(mask_names(runner.last_masks[q_])), describe(sjobs[q_][0], 1)),
+                     dict(kind="sphere-batch", jobs=[list(sjobs[q_])], index=0, level=1, config=sjobs[q_][0], mask=runner.last_masks[q_]))
+    # the same three conductivity sets as ONE sweep in one process, the model-independent operator (DipSource2MEGMat) assembled
+    # once and handed to every GainMEG, as a user would write it; each gain must equal the one from freshly assembled operators
+    swc = []; 
+    for (c, k, s2) in spec:
+        ids = []
+        for sg in (None, [k * x for x in c["sigmas"]], s2):
+            runner.n += 1; ids.append(runner.n); write_geometry(c, 1, ck.workdir, runner.n, sg)
+        el = electrodes(c, 1); ce = c["centre"]; fl = []
+        for d in c["dipoles"]: fl += shift(d["pos"], ce) + d["mom"]
+        for e in el: fl += shift(e, ce)
+        for m in c["meg"]: fl += shift(m["pos"], ce) + m["ori"]
+        swc.append(core.fcase("c01s", [3] + ids + [len(c["dipoles"]), len(el), len(c["meg"])], fl))
+    rc_, swo, _ = core.run_harness(hb, swc, ck.workdir, env={"OMP_NUM_THREADS": os.environ.get("C01_THREADS", "2")}, tag="sweep") if swc else (0, [], "")
+    swo = list(swo) + ["CRASH missing"] * (len(swc) - len(swo))
+    sweep_err = 0.0
+    for q, ((c, k, s2), line, case) in enumerate(zip(spec, swo, swc)):
+        try: iz, fo = core.fparse(line)
+        except ValueError: iz, fo = None, None
+        fresh = [sres[4 * q][0], sres[4 * q + 1][0], sres[4 * q + 2][0]]
+        nd = len(c["dipoles"]); ne = len(electrodes(c, 1)); blk = (ne + len(c["meg"])) * nd
+        if iz is None or iz[0] != 0 or len(fo) != 3 * blk or any(f_ is None for f_ in fresh):
+            if not calibrate:
+                ck.violation("pipeline failure (conductivity sweep)", "the conductivity sweep failed (%s) on %s" % (line[:60], describe(c, 1)), dict(kind="sweep", config=c, case=case, sigma_sets=[c["sigmas"], [k * x for x in c["sigmas"]], s2]))
+            continue
+        errs = [rel_l2(fo[mi * blk:(mi + 1) * blk], fresh[mi]) for mi in range(3)]
+        for e_ in errs:
+            if e_ == e_ and e_ != float("inf"): sweep_err = max(sweep_err, e_)
+        wrong = [mi for mi in range(3) if not (errs[mi] <= 1e-9)]
+        if not calibrate and (wrong or iz[5]):
+            sets = [c["sigmas"], [k * x for x in c["sigmas"]], s2]; mi = wrong[0] if wrong else 0
+            ck.violation("conductivity sweep: a gain of the sweep differs from the gain with fresh operators" if wrong else "conductivity sweep: Gain constructor modifies its operand",
+                         "sweep over the conductivity sets %s (same geometry, dipoles and sensors; DipSource2MEGMat assembled once and passed to every GainMEG, as a user would write it): relative l2 differences to the gains computed with freshly assembled operators are %s for set 1, 2, 3%s; operands modified by the Gain constructors: %s; %s"
+                         % ([["%.4g" % x for x in st_] for st_ in sets], ["%.3g" % e for e in errs], (" - set %d is the first wrong one: MEG then depends on which conductivities were computed before" % (mi + 1)) if wrong else "", mask_names(iz[5]) or "none", describe(c, 1)),
+                         dict(kind="sweep", config=c, case=case, sigma_sets=sets, model=mi, sweep_gain=fo[mi * blk:(mi + 1) * blk], fresh_gain=fresh[mi], mask=iz[5]))
+    for f in os.listdir(ck.workdir):
+        if f.startswith(("m", "s")) and f.endswith((".geom", ".cond", ".tri")): os.remove(os.path.join(ck.workdir, f))
+    msig = 0.0; mscale = 0.0; escale = 0.0; oscale = 0.0
     for q, (c, k, s2) in enumerate(spec):
-        a, b, d = sres[3 * q][0], sres[3 * q + 1][0], sres[3 * q + 2][0]
-        if a is None or b is None or d is None:
+        a, b, d, o_ = sres[4 * q][0], sres[4 * q + 1][0], sres[4 * q + 2][0], sres[4 * q + 3][0]
+        if a is None or b is None or d is None or o_ is None:
             ck.violation("pipeline failure (MEG conductivity runs)", "conductivity-scaling run failed on %s" % describe(c, 1), dict(kind="sphere-config", config=c, level=1)); continue
         nd = len(c["dipoles"]); ne = len(electrodes(c, 1)); off = ne * nd
         # EEG: potentials scale exactly by 1/k (sphere_pot_scale_sigma holds for the discrete equations too)
         for j in range(nd):
             va = demean(col(a, 0, ne, nd, j)); vb = demean(col(b, 0, ne, nd, j))
-            ee = l2([x - k * y for x, y in zip(va, vb)]) / l2(va)
+            ee = l2([x - k * y for x, y in zip(va, vb)]) / (l2(va) or 1e-300)
             escale = max(escale, ee)
             if not calibrate and not (ee <= 1e-9):
                 ck.violation("EEG does not scale by 1/k under sigma -> k sigma: %d layers" % len(c["radii"]),
                              "the EEG gain of dipole %d times k differs by %.3g (relative, l2, zero-mean) from the gain with all conductivities multiplied by k = %g; %s" % (j, ee, k, describe(c, 1)),
-                             dict(kind="sphere-config", config=c, level=1, k=k, gain=a, gain_scaled=b)); break
-        a, b = a[off:], b[off:]
-        na = l2(a)
+                             dict(kind="relation", relation="sigma-scale", config=c, level=1, k=k, gain=a, gain_scaled=b)); break
+        a, b, d = a[off:], b[off:], d[off:]
+        # orientation vectors of another length, same directions: the library normalises, the gain must not move
+        eo = rel_l2(a, o_); oscale = max(oscale, eo if eo == eo else float("inf"))
+        if not calibrate and not (eo <= 1e-9):
+            ck.violation("MEG gain depends on the length of the sensor orientation vectors: %d layers" % len(c["radii"]),
+                         "rescaling the orientation vectors of the sensors (x3.7 for even, normalised for odd sensors; directions unchanged) changes the MEG gain by %.3g (relative l2); Head2MEGMat and DipSource2MEGMat both project on orientation/|orientation|; %s" % (eo, describe(c, 1)),
+                         dict(kind="relation", relation="orientation-length", config=c, level=1, gain=a, gain_rescaled_orientations=o_, orientations=[m["ori"] for m in c["meg"]]))
+        na = l2(a) or 1e-300
         e1 = l2([x - y for x, y in zip(a, b)]) / na; e2 = l2([x - y for x, y in zip(a, d)]) / na
         mscale = max(mscale, e1); msig = max(msig, e2)
         obs.append(((1, 0, 0, 0), "meg_sigma", e2))
         if not calibrate and e1 > 1e-9:
             ck.violation("MEG changes under sigma -> k sigma: %d layers" % len(c["radii"]),
                          "the MEG gain changes by %.3g (relative, l2) when all conductivities are multiplied by %g; %s" % (e1, k, describe(c, 1)),
-                         dict(kind="sphere-config", config=c, level=1, k=k, gain=a, gain_scaled=b))
+                         dict(kind="relation", relation="sigma-scale", config=c, level=1, k=k, gain=a, gain_scaled=b))
         if not calibrate and cal and e2 > cal["meg_sigma"]:
             ck.violation("MEG depends on the conductivities: %d layers" % len(c["radii"]),
                          "the MEG gain changes by %.3g (relative, l2; calibrated level %.3g) between conductivities %s and %s; %s" % (e2, cal["meg_sigma"], ["%.4g" % s for s in c["sigmas"]], ["%.4g" % s for s in s2], describe(c, 1)),
-                         dict(kind="sphere-config", config=c, level=1, sigmas2=s2, gain=a, gain2=d))
+                         dict(kind="relation", relation="sigma-independent", config=c, level=1, sigmas2=s2, gain=a, gain2=d))
 
     ncf, wcf = (0, 0.0) if calibrate else closed_form_pieces(ck, runner, cfgs[:20 if quick else 100], rng)
 
@@ -519,7 +731,7 @@ def main(replay=None, calibrate=False):
                   samples=samples, op_distribution=dist, worst_observed={"L%d %s" % k: round(v, 5) for k, v in sorted(worst.items())},
                   refinement=[dict(metric=n, frm=NVERT[a], to=NVERT[b], before=round(x, 5), after=round(y, 5)) for (n, a, b, x, y) in sorted(refine, key=lambda r: -r[2])][:24],
                   largest_fraction_of_bound={k_: dict(fraction=v[0], bin=v[1]) for k_, v in frac.items()},
-                  meg_sigma_scaling_max_rel=mscale, eeg_sigma_scaling_max_rel=escale, meg_sigma_independent_max_rel=msig,
+                  meg_sigma_scaling_max_rel=mscale, eeg_sigma_scaling_max_rel=escale, meg_orientation_length_max_rel=oscale, sweep_vs_fresh_operators_max_rel=sweep_err, meg_sigma_independent_max_rel=msig,
                   traces_validated_against_impl=runner.evals,
                   explanation=EXPLANATION)
     return ck.finish()
